@@ -22,7 +22,9 @@ Clause oracle (judges the real outputs directly, independent of model agreement)
   quantized_once   layer weights after export == the layer's OWN quantizer (the one its call() uses
                    for that weight) applied once to the previous weights, bit for bit
   po2_rebuild      sign * 2^exponent == stored weight (Lean `judge_po2`)
-  autopo2_rebuild  scale * hw == stored, hw integer, |hw| <= 2^(bits-1)-1 (Lean `judge_autopo2`)
+  autopo2_rebuild  scale * hw == stored, hw integer, hw inside the DECLARED range of the quantizer:
+                   signed [-(2^(bits-1)-1), 2^(bits-1)-1], unsigned (keep_negative=False) [0, 2^bits-1]
+                   (Lean `judge_autopo2`, the model's `inCodeRange`)
   bn_terms         bn_inv / fused_bias == float32-simulated BN algebra on the parameters the layers
                    hold after the export (Lean `judge_bn`)
   pool             q_mult_factor == average quantizer of 1/pool_area (the plain factor without quantizer)
@@ -637,6 +639,21 @@ def build_cases(rng, tier, rot0=0):
       "po2m": lambda: quantized_po2(4, max_value=1),
       "apo2": lambda: quantized_bits(int(rng.integers(3, 7)), int(rng.integers(0, 3)), 1, alpha="auto_po2"),
       "apo2neg": lambda: quantized_bits(4, -1, 1, alpha="auto_po2"),
+      # UNSIGNED auto_po2 (keep_negative falsy): all `bits` are magnitude bits (seed C14-9 family)
+      "apo2u": lambda: quantized_bits(int(rng.integers(3, 7)), int(rng.integers(0, 3)), 1, keep_negative=False,
+                                      alpha="auto_po2"),
+      "apo2u40": lambda: quantized_bits(4, 0, 1, keep_negative=False, alpha="auto_po2"),
+      "apo2u30": lambda: quantized_bits(3, 0, 1, keep_negative=False, alpha="auto_po2"),
+      "apo2u4n": lambda: quantized_bits(4, -1, 1, keep_negative=False, alpha="auto_po2"),
+      "apo2u40_0": lambda: quantized_bits(4, 0, 1, keep_negative=0, alpha="auto_po2"),        # falsy int
+      "apo2u40_np": lambda: quantized_bits(np.int64(4), np.int32(0), np.int64(1), keep_negative=np.bool_(False),
+                                           alpha="auto_po2"),
+      "s_apo2u40": lambda: "quantized_bits(4,0,1,keep_negative=False,alpha='auto_po2')",
+      # a post-training scale (what clone_model_and_freeze_auto_po2_scale leaves behind): data independent
+      "apo2fz40": lambda: quantized_bits(4, 0, 1, alpha="auto_po2", post_training_scale=1.0),
+      "apo2ufz40": lambda: quantized_bits(4, 0, 1, keep_negative=False, alpha="auto_po2",
+                                          post_training_scale=np.array([[1.0, 1.0, 1.0]], dtype=np.float32)),
+      "apo2s51_1": lambda: quantized_bits(5, 1, 1, keep_negative=1, alpha="auto_po2"),        # truthy int
       "bin1": lambda: binary(alpha=1.0),
       "bin": lambda: binary(),
       "ter1": lambda: ternary(alpha=1.0),
@@ -657,6 +674,9 @@ def build_cases(rng, tier, rot0=0):
       "fxn": lambda: quantized_bits(int(rng.integers(3, 7)), int(rng.integers(0, 2)), 0),
       "po2": lambda: quantized_po2(4),
       "apo2": lambda: quantized_bits(5, 1, 1, alpha="auto_po2"),
+      "apo2u": lambda: quantized_bits(int(rng.integers(3, 7)), int(rng.integers(0, 2)), 1, keep_negative=False,
+                                      alpha="auto_po2"),
+      "apo2u40": lambda: quantized_bits(4, 0, 1, keep_negative=False, alpha="auto_po2"),
       "none": lambda: None,
       "fx6": lambda: quantized_bits(6, 1, 1, alpha=1.0),
       "fx3": lambda: quantized_bits(3, 0, 1, alpha=1.0),
@@ -665,7 +685,21 @@ def build_cases(rng, tier, rot0=0):
       "np_fx": lambda: quantized_bits(np.int64(4), np.float64(1), 1, alpha=np.float32(1.0)),
   }
 
-  def set_w(model, span=80):
+  def code_w(shape, ub, i, neg):
+    """weights that ARE codes of the format (ub magnitude bits, integer i): z * 2^i / 2^ub with
+    |z| <= zmax = 2^ub/2 - 1 (what the auto_po2 path of quantized_bits can emit) and the maximum
+    present in every scale group, so the data-dependent scale comes out as exactly 1 and the
+    property's clause (integer codes inside the declared range) applies in full"""
+    zmax = 2 ** (ub - 1) - 1 if ub > 1 else 1
+    z = rng.integers(-zmax if neg else 0, zmax + 1, size=shape)
+    zf = z.reshape(-1, shape[-1]) if len(shape) > 1 else z.reshape(-1, 1)
+    for c in range(zf.shape[1]):
+      zf[int(rng.integers(0, zf.shape[0])), c] = zmax
+    return (zf.reshape(shape) * (2.0 ** i) / (2.0 ** ub)).astype(np.float32)
+
+  def set_w(model, span=80, codes=None):
+    """codes=(magnitude bits, integer, negative codes too?): the non-batch-norm weights are codes of
+    that format (see `code_w`); otherwise dyadic k/64"""
     for l in model.layers:
       ws = l.get_weights()
       if not ws:
@@ -685,9 +719,29 @@ def build_cases(rng, tier, rot0=0):
             new.append(w)
           else:
             new.append((rng.integers(-32, 33, size=w.shape) / 16.0).astype(np.float32))
+        elif codes is not None and (not isinstance(codes, dict) or l.name in codes):
+          new.append(code_w(w.shape, *(codes[l.name] if isinstance(codes, dict) else codes)))
         else:
           new.append(dyadic(rng, w.shape, span=span))
       l.set_weights(new)
+
+  def set_w_codes(ub, i, neg):
+    return lambda model: set_w(model, codes=(ub, i, neg))
+
+  def mk_dense_chain(spec):
+    """several QDense layers in a row, one auto_po2 quantizer form each; every layer's weights are
+    codes of ITS quantizer's format: spec = [(kq, bq, magnitude bits, integer, negative codes)]"""
+    codes = {"d%d" % (n + 1): (ub, i, neg) for n, (_, _, ub, i, neg) in enumerate(spec)}
+    sw = lambda model: set_w(model, codes=codes)   # noqa: E731
+
+    def f():
+      x = inp = K.Input((4,))
+      for n, (kq, bq, _, _, _) in enumerate(spec):
+        x = QDense(3, kernel_quantizer=WQ[kq](), bias_quantizer=BQ[bq](), name="d%d" % (n + 1))(x)
+      m = K.Model(inp, x)
+      sw(m)
+      return m, xin((4,))
+    return f, sw
 
   def xin(shape):
     return (rng.integers(-4, 5, size=(2,) + tuple(shape)) / 4.0).astype(np.float32)
@@ -729,11 +783,17 @@ def build_cases(rng, tier, rot0=0):
     if kind == "noq":
       return QBatchNormalization(gamma_quantizer=None, variance_quantizer=None, beta_quantizer=None,
                                  mean_quantizer=None, name=name)
+    if kind == "var_apo2u":
+      # the natural home of an unsigned quantizer: the (non-negative) moving variance and gamma
+      return QBatchNormalization(gamma_quantizer=quantized_bits(6, 2, 1, keep_negative=False, alpha="auto_po2"),
+                                 beta_quantizer=fx(6, 2, 0), mean_quantizer=fx(6, 2, 0),
+                                 variance_quantizer=quantized_bits(7, 2, 1, keep_negative=False,
+                                                                   alpha="auto_po2"), name=name)
     raise ValueError(kind)
 
   cases = []
 
-  def add(label, feats, fn, rew="rot", **kw):
+  def add(label, feats, fn, rew="rot", reweigh=None, **kw):
     # history variant: None = export, export, sparsity; 1 = export, NEW WEIGHTS, export, sparsity;
     # 2 = export, export, NEW WEIGHTS, sparsity (rotating with the case index and the run seed)
     if rew == "rot":
@@ -741,29 +801,29 @@ def build_cases(rng, tier, rot0=0):
     feats = dict(feats)
     feats["rew"] = rew
     cases.append(Case(label + ("" if rew is None else " {new weights before export %d}" % rew),
-                      fn, feats, reweigh=set_w, rew=rew, **kw))
+                      fn, feats, reweigh=reweigh or set_w, rew=rew, **kw))
 
   # -- single weight-bearing layers x quantizer menu
-  def mk_dense(kq, bq, use_bias=True, mname=None):
+  def mk_dense(kq, bq, use_bias=True, mname=None, sw=None):
     def f():
       x = inp = K.Input((4,))
       y = QDense(3, kernel_quantizer=WQ[kq](), bias_quantizer=BQ[bq](), use_bias=use_bias, name="d")(x)
       m = K.Model(inp, y, **({"name": mname} if mname else {}))
-      set_w(m)
+      (sw or set_w)(m)
       return m, xin((4,))
     return f
 
-  def mk_conv1d(kq, bq):
+  def mk_conv1d(kq, bq, sw=None):
     def f():
       x = inp = K.Input((5, 2))
       y = QConv1D(2, 2, kernel_quantizer=WQ[kq](), bias_quantizer=BQ[bq](), name="c1")(x)
       m = K.Model(inp, y)
-      set_w(m)
+      (sw or set_w)(m)
       return m, xin((5, 2))
     return f
 
   def mk_conv2d(kq, bq, bnk=None, use_bias=True, dw=False, branch=False, pool=None, mname=None,
-                act_between=False, conv_cls=None):
+                act_between=False, conv_cls=None, sw=None):
     def f():
       x = inp = K.Input((4, 4, 2))
       if dw:
@@ -802,7 +862,7 @@ def build_cases(rng, tier, rot0=0):
         y = _user_subclasses(K)["MyPool"](pool_size=2, average_quantizer=quantized_bits(6, 0, 1, alpha=1.0),
                                           name="pool")(y)
       m = K.Model(inp, y, **({"name": mname} if mname else {}))
-      set_w(m)
+      (sw or set_w)(m)
       return m, xin((4, 4, 2))
     return f
 
@@ -846,17 +906,17 @@ def build_cases(rng, tier, rot0=0):
       return m, xin((4,))
     return f
 
-  def mk_sep(dq, pq, bq):
+  def mk_sep(dq, pq, bq, sw=None):
     def f():
       x = inp = K.Input((4, 4, 2))
       y = QSeparableConv2D(2, 2, depthwise_quantizer=WQ[dq](), pointwise_quantizer=WQ[pq](),
                            bias_quantizer=BQ[bq](), name="sep")(x)
       m = K.Model(inp, y)
-      set_w(m)
+      (sw or set_w)(m)
       return m, xin((4, 4, 2))
     return f
 
-  def mk_rnn(cls, kq, rq, bq, bidir=False, use_bias=True):
+  def mk_rnn(cls, kq, rq, bq, bidir=False, use_bias=True, sw=None):
     def f():
       x = inp = K.Input((3, 2))
       cell = {"rnn": QSimpleRNN, "lstm": QLSTM, "gru": QGRU}[cls]
@@ -865,7 +925,7 @@ def build_cases(rng, tier, rot0=0):
                  name=None if bidir else "r")
       y = QBidirectional(lay, name="bi")(x) if bidir else lay(x)
       m = K.Model(inp, y)
-      set_w(m)
+      (sw or set_w)(m)
       return m, xin((3, 2))
     return f
 
@@ -1133,8 +1193,50 @@ def build_cases(rng, tier, rot0=0):
   add("QConv2DBatchnorm[fx,fx]", {"cls": "folded", "kq": "fx"}, mk_folded("fx", "fx"))
   add("QConv2DBatchnorm[po2,fx]", {"cls": "folded", "kq": "po2"}, mk_folded("po2", "fx"))
   add("chain(conv+bn,dw+bn,dense)", {"cls": "chain"}, mk_chain())
+  # -- strengthening round (seed C14-9 family): the option lattice of the auto_po2 quantizer the
+  # export's split reads — keep_negative (False / 0 / np.False_ / True / 1) x bits x integer
+  # (negative too) x argument form (object, string, alpha=None turned into auto_po2 by the layer)
+  # x weight slot (kernel, bias, depthwise, batch-norm gamma / variance; recurrent layers through the
+  # random extras) x post-training (frozen) scale x weight
+  # regime: weights that ARE codes of the declared format with the maximum in every scale group
+  # (quantizer.scale == 1 exactly: the property's clause applies in full — integer codes inside
+  # [0, 2^bits-1] resp. [-(2^(bits-1)-1), 2^(bits-1)-1], scale = step of the format), non-negative
+  # and mixed-sign, and the ordinary dyadic weights (scale != 1).
+  def addu(label, feats, mk, ub, i, neg, **kw):
+    feats = dict(feats, autopo2_unsigned=True, codes=True, negative_codes=neg)
+    sw = set_w_codes(ub, i, neg)
+    add(label + (" codes+-" if neg else " codes+"), feats, mk(sw), reweigh=sw, **kw)
+  addu("QDense[apo2u40,fx]", {"cls": "QDense", "kq": "apo2u40", "bq": "fx"},
+       lambda sw: mk_dense("apo2u40", "fx", sw=sw), 4, 0, False)                 # the seed's demo
+  addu("QDense[apo2u40,none]", {"cls": "QDense", "kq": "apo2u40", "bq": "none"},
+       lambda sw: mk_dense("apo2u40", "none", sw=sw), 4, 0, True)                # negative codes
+  # argument forms of keep_negative (falsy int, np.False_, inside a string; truthy int), a negative
+  # integer, an unsigned auto_po2 bias — ONE model
+  CH = [("apo2u40_0", "fx", 4, 0, False), ("apo2u40_np", "fx", 4, 0, False), ("s_apo2u40", "fx", 4, 0, False),
+        ("apo2s51_1", "po2", 4, 1, True), ("apo2u4n", "apo2u40", 4, -1, False)]
+  f_ch, sw_ch = mk_dense_chain(CH)
+  add("QDense x5[%s] codes" % ",".join(c[0] for c in CH),
+      {"cls": "QDense", "kq": "autopo2-forms", "argform": True, "autopo2_unsigned": True, "codes": True},
+      f_ch, reweigh=sw_ch)
+  addu("QConv2D[apo2u40,fx]+bn[fx]", {"cls": "QConv2D", "kq": "apo2u40", "bq": "fx", "bn": "fx"},
+       lambda sw: mk_conv2d("apo2u40", "fx", "fx", sw=sw), 4, 0, False)
+  addu("QDepthwiseConv2D[apo2u30,nobias]", {"cls": "QDepthwiseConv2D", "kq": "apo2u30", "nobias": True},
+       lambda sw: mk_conv2d("apo2u30", "fx", None, use_bias=False, dw=True, sw=sw), 3, 0, False)
+  addu("QSeparableConv2D[apo2u40,po2,fx]", {"cls": "QSeparableConv2D", "dq": "apo2u40", "pq": "po2"},
+       lambda sw: mk_sep("apo2u40", "po2", "fx", sw=sw), 4, 0, False)
+  addu("QDense[apo2ufz40,fx] frozen scale", {"cls": "QDense", "kq": "apo2ufz40", "bq": "fx", "frozen": True},
+       lambda sw: mk_dense("apo2ufz40", "fx", sw=sw), 4, 0, False)
+  add("QDense[apo2fz40,fx] frozen scale", {"cls": "QDense", "kq": "apo2fz40", "bq": "fx", "frozen": True},
+      mk_dense("apo2fz40", "fx"))
+  # ordinary dyadic weights (mixed sign, scale != 1) and the batch-norm slots
+  add("QDense[apo2u,apo2u]", {"cls": "QDense", "kq": "apo2u", "bq": "apo2u", "autopo2_unsigned": True},
+      mk_dense("apo2u", "apo2u"))
+  add("Dense+bn[var_apo2u]", {"cls": "QBatchNormalization", "bn": "var_apo2u", "autopo2_unsigned": True},
+      mk_bn_alone("var_apo2u"))
   # -- seeded random extras
-  n_extra = 10 if tier == "quick" else 300
+  kqs = kqs[:-1] + ["apo2u", kqs[-1]]      # the last entry (fxa2) is never drawn by the extras
+  bqs = bqs + ["apo2u"]
+  n_extra = 4 if tier == "quick" else 300
   for j in range(n_extra):
     t = int(rng.integers(0, 6))
     kq = kqs[int(rng.integers(0, len(kqs) - 1))]      # fxa2 only in the fixed list
@@ -1241,6 +1343,12 @@ def _pruned_case(K, QDense, pruned_po2, fx, set_w, xin):
     y = QDense(3, kernel_quantizer=pruned_po2(), bias_quantizer=fx(), name="d")(x)
     m = K.Model(inp, y)
     set_w(m)
+    # the point of this case is a po2 weight that IS zero (exponent log2(0) = -inf): do not leave it
+    # to the 12 % zero share of `dyadic` (seed C14-3 was caught or not depending on the draw)
+    k, b = m.get_layer("d").get_weights()
+    k[0, 0] = 0.0
+    k[-1, -1] = 0.0
+    m.get_layer("d").set_weights([k, b])
     return m, xin((4,))
   return f
 
@@ -1263,9 +1371,11 @@ def run(run: core.Run, tier: str):
       "of these / QConv2DBatchnorm / QAveragePooling2D / "
       "QGlobalAveragePooling2D (with / without average quantizer) / QBatchNormalization (scale and "
       "center, inverse quantizer, scale=False, center=False, both False; fused and stand-alone) "
-      "x weight quantizers (quantized_bits fixed, 1-bit, alpha=2, auto_po2, "
+      "x weight quantizers (quantized_bits fixed, 1-bit, alpha=2, auto_po2 — signed and UNSIGNED "
+      "(keep_negative False / 0 / np.False_ / True / 1), negative integer, post-training scale —, "
       "quantized_po2, binary, ternary, None, a zero-preserving po2 function) x dyadic weights with "
-      "exact zeros and saturating values x a history of three exports on one model object (third via "
+      "exact zeros and saturating values, and weights that are codes of the auto_po2 quantizer's declared "
+      "format (quantizer.scale exactly 1: the rebuild / integer / range clause applies in full) x a history of three exports on one model object (third via "
       "get_model_sparsity; new weights assigned between two exports in 2 of 3 variants), all in one "
       "process with identical model / layer names; routes filename= / custom_objects= / allow_list=; "
       "non-trivial = distinct (model template, quantizers, export round); branch histogram = "
@@ -1521,18 +1631,27 @@ def _compare_case(run, r, o, N, judge_lines, judge_meta):
           one = bool(qscale is not None and np.all(qscale == 1.0))
           line = {"op": "judge_autopo2", "stored": enc(w),
                   "hw": [[f.numerator, f.denominator] for f in ent["hw"][k]],
-                  "scale": [[f.numerator, f.denominator] for f in scale], "bits": int(q.bits)}
+                  "scale": [[f.numerator, f.denominator] for f in scale], "bits": int(q.bits),
+                  "keep_negative": bool(q.keep_negative)}
           judge_lines.append(line)
 
           def meta2(jo, label=label, rd=rd, l=l, k=k, cls=cls, one=one,
                     case_ok=case_ok, w=w, ent=ent, scale=scale, q=q, qscale=qscale):
             run.evaluations += 1
-            run.count("autopo2_scale_is_one" if one else "autopo2_scale_not_one")
+            kn = bool(q.keep_negative)
+            run.count(("autopo2_scale_is_one" if one else "autopo2_scale_not_one") + ("" if kn else "_unsigned"))
+            if one and jo["integer"] and jo["range"] and jo["rebuild"]:
+              run.count("autopo2_clause_holds_in_full" + ("" if kn else "_unsigned"))
             for cl in ("rebuild", "integer", "range", "scale_po2"):
               if not jo[cl]:
-                run.violate("autopo2_" + cl, {"site": "autopo2_split", "quantizer_scale_is_one": one},
+                run.violate("autopo2_" + cl, {"site": "autopo2_split", "quantizer_scale_is_one": one,
+                                              "keep_negative": kn,
+                                              # an UNSIGNED quantizer handed a negative weight on
+                                              "unsigned_negative_weight": (not kn) and (not jo["nonneg"])},
                             {"case": label, "round": rd, "layer": l.name, "weight_index": k,
-                             "quantizer": q_label(q),
+                             "quantizer": q_label(q), "declared_range": (
+                                 "[-(2^%d-1), 2^%d-1]" % (int(q.bits) - 1, int(q.bits) - 1) if kn
+                                 else "[0, 2^%d-1]" % int(q.bits)),
                              "quantizer.scale": None if qscale is None else [str(v) for v in fr(qscale)][:8],
                              "stored": [str(v) for v in fr(w)][:8], "hw": [str(v) for v in ent["hw"][k]][:8],
                              "exported_scale": [str(v) for v in scale][:8]}, mirrored=case_ok)
